@@ -127,6 +127,8 @@ def alphabet(names):
     ops.append(["add_blackbox", "2k", None])
     ops.append(["add_blackbox", "k", None, "leaf2"])       # pins k.m.i, k.o
     ops.append(["add_blackbox", "k.m", None])              # pins k.m.i (clashes with the former), k.m.o
+    ops.append(["add_blackbox", "k", None, "odd"])         # a definition that lists pin 'o' as input AND output
+    ops.append(["add_blackbox", "k", {"i": U[0]}, "odd"])
     ops.append(["add", "k.i", "buf", None, None, False])   # a plain node named like a pin
     ops.append(["add", "k.o", "and", [U[0]], None, False])
     ops.append(["add", "k.o", "bb_input", [U[0]], None, False])   # the output pin's name, as an input pin with a driver
@@ -154,6 +156,7 @@ def core_alphabet():
             ["add_subcircuit", "c1", "s", {"x": "a", "g": "b"}], ["add_subcircuit", "c2", "s", {"x": "a"}], ["add_subcircuit", "c2", "k", None],
             ["fill_blackbox", "k", "f1"], ["fill_blackbox", "k", "f3"], ["fill_blackbox", "k", "f2"], ["fill_blackbox", "s_m", "f1"],
             ["fill_blackbox", "k", "f4"], ["add_blackbox", "k", None, "leaf2"], ["add_blackbox", "k.m", None],
+            ["add_blackbox", "k", None, "odd"],
             ["add", "k.i", "buf", None, None, False], ["add", "k.o", "bb_input", ["a"], None, False]]
 
 
@@ -204,6 +207,8 @@ def do_op(c, op, kids):
     if k == "add_blackbox":
         if len(op) > 3 and op[3] == "leaf2":
             bb = cg.BlackBox("leaf2", ["m.i"], ["o"])  # a pin name that looks hierarchical
+        elif len(op) > 3 and op[3] == "odd":
+            bb = cg.BlackBox("odd", ["i", "o"], ["o"])
         else:
             bb = cg.BlackBox("leaf", ["i"], ["o"])
         return c.add_blackbox(bb, op[1], dict(op[2]) if op[2] is not None else None)
